@@ -5,7 +5,13 @@ Recognised family (everything else -> Skip, the snapshot is used and the corresp
 
     def safe_[async_]contextmanager(f):
         [t = unwrap(f) | inspect.unwrap(f)]                    -> testsOnParam = false when the tests below look at t
-        <if-chain of inspect tests on f (or on t) that raise>  -> decoCheck : FnKind -> Option Reject, testsOnParam
+        <if-chain of inspect tests on f (or on t) that raise>  -> <x>Pre : FnKind -> (Nat -> Bool) -> Bool -> Pre, testsOnParam
+            raise <Class>(...)                                     .reject
+            assert <test>, <msg>                                   .reject "AssertionError" unless `opt` (python -O strips the statement)
+            `__debug__` as a test                                  !opt
+            a test that is no inspect kind test                    `o i` (opaque to the model: i-th such test of the chain)
+            return <anything but factory(wrapper)>                 .bypass (the protecting wrapper is not what the caller gets)
+          the same chain may continue behind the inner function; `return factory(wrapper)` is .build
         @wraps(f)                                               -> usesWraps
         [async] def wrapper(*args, **kwargs):
             it = f(*args, **kwargs)                             -> forwardsArgs
@@ -18,7 +24,10 @@ Recognised family (everything else -> Skip, the snapshot is used and the corresp
             CLEANUP
         return contextmanager(wrapper) | asynccontextmanager(wrapper) | <anything else>   -> wrappedBy
 
+    `yield next(it)` may also be `v = next(it); yield v` (yieldsNextResult = true) or `next(it); yield <other>` (false)
+
     CLEANUP = sequence of blocks, each   try: next(it) x n  except <Class>: pass      -> (n, <Class>)
+                                         (a handler body other than `pass` that leaves the iterator alone -> handlersPass = false)
                                    or    next(it) x n                                   -> (n, none)
               a statement `helper()` / `await helper()` naming a parameterless function defined next to the wrapper is
               replaced by that function's body (only when `it` is one shared cell, see below)
@@ -49,8 +58,17 @@ def callee_name(call):
     return None
 
 
+HANDLERS_PASS = []  # one False per `except` clause around a cleanup `next` whose body is not `pass`
 TESTED = set()      # which objects the inspect tests of the function being translated look at: 'param' / 'unwrapped'
 UNWRAPPED = set()   # local names bound to inspect.unwrap(<param>)
+
+
+OPAQUE = []         # source text of the tests of the chain being translated that are not inspect kind tests
+
+
+def opaque(t):
+    OPAQUE.append(ast.unparse(t))
+    return f'o {len(OPAQUE) - 1}'
 
 
 def compile_test(t, param):
@@ -75,7 +93,12 @@ def compile_test(t, param):
         return f'{TESTS[callee_name(t)]} k'
     if isinstance(t, ast.Constant) and isinstance(t.value, bool):
         return lean_bool(t.value)
-    raise Skip('decoration check: test outside the subset: ' + ast.dump(t)[:80])
+    if isinstance(t, ast.Name) and t.id == '__debug__':
+        return '(!opt)'            # the compiler folds `__debug__` to False under -O
+    for x in ast.walk(t):
+        if isinstance(x, (ast.NamedExpr, ast.Yield, ast.YieldFrom, ast.Await, ast.Lambda)):
+            raise Skip('decoration check: test outside the subset: ' + ast.dump(t)[:80])
+    return f'({opaque(t)})'        # any other expression: a test the model cannot evaluate
 
 
 def uses_name(node, param):
@@ -85,8 +108,23 @@ def uses_name(node, param):
     return False
 
 
-def compile_stmts(stmts, param, k):
-    """Lean term of type `Option Reject`; `k` is the term for falling off the end"""
+def compile_return(s, param, wname, factory):
+    """`return factory(wrapper)` -> .build;  any other return -> .bypass <what is applied> <applied to the parameter itself>"""
+    r = s.value
+    if isinstance(r, ast.Call) and isinstance(r.func, ast.Name) and len(r.args) == 1 and not r.keywords and isinstance(r.args[0], ast.Name):
+        fac = r.func.id if r.func.id in ('contextmanager', 'asynccontextmanager') else 'other'
+        if r.args[0].id == wname:
+            if r.func.id != factory:
+                raise Skip('decoration: the wrapper is returned through two different factories')
+            return '.build'
+        return f'.bypass .{fac} {lean_bool(r.args[0].id == param)}'
+    if isinstance(r, ast.Name) and r.id == param:
+        return '.bypass .other true'
+    return '.bypass .other false'
+
+
+def compile_stmts(stmts, param, k, wname=None, factory=None):
+    """Lean term of type `Pre`; `k` is the term for falling off the end"""
     if not stmts:
         return k
     s, rest = stmts[0], stmts[1:]
@@ -95,17 +133,25 @@ def compile_stmts(stmts, param, k):
         cls = e.func.id if isinstance(e, ast.Call) and isinstance(e.func, ast.Name) else e.id if isinstance(e, ast.Name) else None
         if cls is None:
             raise Skip('decoration check: raise of something that is not a class name')
-        return f'some ⟨{lean_str(cls)}, {lean_bool(uses_name(s, param))}⟩'
+        return f'.reject ⟨{lean_str(cls)}, {lean_bool(uses_name(s, param))}⟩'
+    if isinstance(s, ast.Assert):
+        # `assert test, msg`: AssertionError(msg) when the test fails - unless the interpreter runs with -O, which drops the statement
+        kk = compile_stmts(rest, param, k, wname, factory)
+        needs = lean_bool(s.msg is not None and uses_name(s.msg, param))
+        return f'(if (!opt && !{compile_test(s.test, param)}) then .reject ⟨"AssertionError", {needs}⟩ else {kk})'
+    if isinstance(s, ast.Return):
+        return compile_return(s, param, wname, factory)
     if isinstance(s, ast.If):
-        kk = compile_stmts(rest, param, k)
-        return f'(if {compile_test(s.test, param)} then {compile_stmts(s.body, param, kk)} else {compile_stmts(s.orelse, param, kk)})'
+        kk = compile_stmts(rest, param, k, wname, factory)
+        return (f'(if {compile_test(s.test, param)} then {compile_stmts(s.body, param, kk, wname, factory)} '
+                f'else {compile_stmts(s.orelse, param, kk, wname, factory)})')
     if isinstance(s, ast.Pass):
-        return compile_stmts(rest, param, k)
+        return compile_stmts(rest, param, k, wname, factory)
     if isinstance(s, ast.Assign) and len(s.targets) == 1 and isinstance(s.targets[0], ast.Name) and isinstance(s.value, ast.Call) \
             and callee_name(s.value) == 'unwrap' and len(s.value.args) == 1 and not s.value.keywords \
             and isinstance(s.value.args[0], ast.Name) and s.value.args[0].id == param and s.targets[0].id != param:
         UNWRAPPED.add(s.targets[0].id)          # t = unwrap(f): what a `__wrapped__` chain leads to
-        return compile_stmts(rest, param, k)
+        return compile_stmts(rest, param, k, wname, factory)
     raise Skip('decoration check: statement outside the subset: ' + type(s).__name__)
 
 
@@ -179,7 +225,13 @@ def cleanup_blocks(stmts, it, is_async, helpers=None, shared=()):
                 raise Skip('cleanup: try with finally/else or several handlers')
             h = s.handlers[0]
             if any(not isinstance(b, ast.Pass) for b in h.body):
-                raise Skip('cleanup: handler body is not `pass`')
+                # a handler that does something: it may look at the caught Stop(Async)Iteration (whose `.value` is what the user generator
+                # RETURNED) and act on it - the model then assumes the worst (see `verdict` in Model/CtxMgr.lean).  It must not touch the iterator.
+                for x in ast.walk(h):
+                    if isinstance(x, (ast.Yield, ast.YieldFrom, ast.Await, ast.Raise, ast.Try, ast.With, ast.For, ast.While, ast.Lambda)) \
+                            or (isinstance(x, ast.Name) and x.id == it):
+                        raise Skip('cleanup: handler body is neither `pass` nor simple statements that leave the iterator alone')
+                HANDLERS_PASS.append(False)
             if h.type is None:
                 cls = 'baseException'
             elif isinstance(h.type, ast.Name) and h.type.id in CAUGHT:
@@ -237,20 +289,23 @@ def shape_of(tree, deco_name, want_async):
                     and isinstance(s.value, ast.Constant))
            and not (isinstance(s, ast.AnnAssign) and isinstance(s.target, ast.Name) and s.target.id in shared
                     and (s.value is None or isinstance(s.value, ast.Constant)))]
-    TESTED.clear(); UNWRAPPED.clear()
-    check = compile_stmts(pre, param, 'none')
+    after = [s for s in body[widx + 1:] if s not in defs]
+    if not after or not isinstance(after[-1], ast.Return):
+        raise Skip(f'{deco_name}: the statements after the inner function do not end with a return')
+    r = after[-1].value
+    wrapped, factory = 'other', None
+    if isinstance(r, ast.Call) and isinstance(r.func, ast.Name) and len(r.args) == 1 and not r.keywords \
+            and isinstance(r.args[0], ast.Name) and r.args[0].id == w.name:
+        factory = r.func.id
+        if r.func.id in ('contextmanager', 'asynccontextmanager') and imported_from_contextlib(tree, r.func.id):
+            wrapped = r.func.id
+    # the statements in front of and behind the inner function are one chain: how does a call of the decorator end?
+    TESTED.clear(); UNWRAPPED.clear(); del OPAQUE[:]
+    check = compile_stmts(pre + after, param, '.bypass .other false', w.name, factory)
     if len(TESTED) > 1:
         raise Skip(f'{deco_name}: some kind tests look at the parameter, some at inspect.unwrap of it')
     on_param = 'unwrapped' not in TESTED
-    after = [s for s in body[widx + 1:] if s not in defs]
-    if len(after) != 1 or not isinstance(after[0], ast.Return):
-        raise Skip(f'{deco_name}: statements after the inner function are not a single return')
-    r = after[0].value
-    wrapped = 'other'
-    if isinstance(r, ast.Call) and isinstance(r.func, ast.Name) and len(r.args) == 1 and not r.keywords \
-            and isinstance(r.args[0], ast.Name) and r.args[0].id == w.name \
-            and r.func.id in ('contextmanager', 'asynccontextmanager') and imported_from_contextlib(tree, r.func.id):
-        wrapped = r.func.id
+    opaque_tests = list(OPAQUE)
     uses_wraps = any(isinstance(d, ast.Call) and callee_name(d) == 'wraps' and len(d.args) == 1
                      and isinstance(d.args[0], ast.Name) and d.args[0].id == param for d in w.decorator_list)
     if any(not (isinstance(d, ast.Call) and callee_name(d) == 'wraps') for d in w.decorator_list):
@@ -273,41 +328,67 @@ def shape_of(tree, deco_name, want_async):
                 and isinstance(c.keywords[0].value, ast.Name) and c.keywords[0].value.id == a.kwarg.arg)
     rest = wb[1:]
 
-    def is_yield_next(s):
-        return isinstance(s, ast.Expr) and isinstance(s.value, ast.Yield) and s.value.value is not None and is_next(s.value.value, it, is_async)
+    def yield_stmts(stmts):
+        """the statements that start the user generator and yield: -> (how many statements, the wrapper yields what next(iterator) returned)
+             yield next(it)                 (1, True)
+             v = next(it); yield v          (2, True)
+             next(it); yield [<expr>]       (2, False)      <expr> mentions neither the iterator nor a next call"""
+        def is_yield(s):
+            return isinstance(s, ast.Expr) and isinstance(s.value, ast.Yield)
+        if stmts and is_yield(stmts[0]) and stmts[0].value.value is not None and is_next(stmts[0].value.value, it, is_async):
+            return 1, True
+        if len(stmts) >= 2 and is_yield(stmts[1]):
+            y = stmts[1].value.value
+            if isinstance(stmts[0], ast.Assign) and len(stmts[0].targets) == 1 and isinstance(stmts[0].targets[0], ast.Name) \
+                    and stmts[0].targets[0].id != it and is_next(stmts[0].value, it, is_async) \
+                    and isinstance(y, ast.Name) and y.id == stmts[0].targets[0].id:
+                return 2, True
+            if isinstance(stmts[0], ast.Expr) and is_next(stmts[0].value, it, is_async):
+                for x in ast.walk(stmts[1]):
+                    if (isinstance(x, ast.Name) and x.id == it) or isinstance(x, (ast.Call, ast.Await)):
+                        raise Skip(f'{deco_name}: the yielded expression is outside the subset')
+                return 2, False
+        return 0, False
     if not rest:
         raise Skip(f'{deco_name}: wrapper has no yield statement')
+    del HANDLERS_PASS[:]
     if isinstance(rest[0], ast.Try):
         t = rest[0]
         if t.handlers or t.orelse or len(rest) != 1:
             raise Skip(f'{deco_name}: outer try has handlers/else or statements follow it')
-        if len(t.body) != 1 or not is_yield_next(t.body[0]):
+        n_y, yields_next = yield_stmts(t.body)
+        if n_y == 0 or len(t.body) != n_y:
             raise Skip(f'{deco_name}: outer try body is not `yield next(iterator)`')
         in_finally = True
         blocks = cleanup_blocks(t.finalbody, it, is_async, helpers, shared)
-    elif is_yield_next(rest[0]):
-        in_finally = False
-        blocks = cleanup_blocks(rest[1:], it, is_async, helpers, shared)
     else:
-        raise Skip(f'{deco_name}: first statement after the iterator is neither try nor `yield next(iterator)`')
-    for x in ast.walk(w):
-        if isinstance(x, (ast.Yield, ast.YieldFrom)) and not (isinstance(x, ast.Yield) and x.value is not None and is_next(x.value, it, is_async)):
-            raise Skip(f'{deco_name}: a second kind of yield')
-    n_yields = sum(isinstance(x, ast.Yield) for x in ast.walk(w))
+        n_y, yields_next = yield_stmts(rest)
+        if n_y == 0:
+            raise Skip(f'{deco_name}: first statement after the iterator is neither try nor `yield next(iterator)`')
+        in_finally = False
+        blocks = cleanup_blocks(rest[n_y:], it, is_async, helpers, shared)
+    handlers_pass = not HANDLERS_PASS
+    n_yields = sum(isinstance(x, (ast.Yield, ast.YieldFrom)) for x in ast.walk(w))
     if n_yields != 1:
         raise Skip(f'{deco_name}: wrapper has {n_yields} yields')
     bl = ', '.join(f'({n}, .{c})' for n, c in blocks)
     shape = (f'{{ wrapperIsAsync := {lean_bool(is_async)}, forwardsArgs := {lean_bool(forwards)}, cleanupInFinally := {lean_bool(in_finally)},\n'
              f'    cleanup := [{bl}], wrappedBy := .{wrapped}, usesWraps := {lean_bool(uses_wraps)},\n'
-             f'    iteratorPerUse := {lean_bool(per_use)} }}')
-    return check, shape, on_param
+             f'    iteratorPerUse := {lean_bool(per_use)}, yieldsNextResult := {lean_bool(yields_next)}, handlersPass := {lean_bool(handlers_pass)} }}')
+    return check, shape, on_param, opaque_tests
 
 
 def gen_ctxmgr(repo):
     tree = ast.parse(src(repo, REL))
-    sc, ss, sp = shape_of(tree, 'safe_contextmanager', False)
-    ac, as_, ap = shape_of(tree, 'safe_async_contextmanager', True)
-    return HEADER.format(rel=REL) + f'''namespace PedVerif.Gen.CtxMgr
+    sc, ss, sp, so = shape_of(tree, 'safe_contextmanager', False)
+    ac, as_, ap, ao = shape_of(tree, 'safe_async_contextmanager', True)
+
+    def opaque_doc(tests):
+        if not tests:
+            return ''
+        return '\n    opaque tests: ' + '; '.join(f'`o {i}` = `{t}`' for i, t in enumerate(tests)).replace('-/', '- /')
+    return HEADER.format(rel=REL) + f'''set_option linter.unusedVariables false
+namespace PedVerif.Gen.CtxMgr
 
 /-! fixed preamble (vocabulary of the translation) -/
 
@@ -336,6 +417,13 @@ structure Reject where
   needsName : Bool
 deriving DecidableEq, Repr
 
+/-- how a call of the decorator ends (the statements in front of and behind the inner function, as one chain) -/
+inductive Pre where
+  | reject (r : Reject)                  -- an exception is raised
+  | bypass (w : Wrap) (ofParam : Bool)   -- a `return` of something that is not `factory(wrapper)`: `w(<the parameter itself>)` / `w(<anything else>)`
+  | build                                -- `return factory(wrapper)`: the protecting wrapper, see `Shape.wrappedBy`
+deriving DecidableEq, Repr
+
 structure Shape where
   /-- the inner `wrapper` is an `async def` -/
   wrapperIsAsync : Bool
@@ -351,16 +439,24 @@ structure Shape where
   /-- the variable holding the user generator between the yield and the cleanup is a plain local of `wrapper` (one per call of the
       manager, i.e. per use); false: it is declared `nonlocal` / `global`, one cell shared by all live uses of the manager -/
   iteratorPerUse : Bool
+  /-- the wrapper yields the object `next(iterator)` returned (`yield next(iterator)` / `v = next(iterator); yield v`); false: it starts
+      the user generator and yields something else -/
+  yieldsNextResult : Bool
+  /-- every `except <Caught>:` around the cleanup `next(iterator)` calls has the body `pass`; false: some handler does something (it can
+      look at the caught Stop(Async)Iteration, whose `.value` is what the user generator returned) -/
+  handlersPass : Bool
 deriving Repr
 
 /-! translated from the source -/
 
-/-- `safe_contextmanager`: the statements in front of the inner function, as a function of the kind of `f` -/
-def syncDecoCheck (k : FnKind) : Option Reject :=
+/-- `safe_contextmanager`: the statements around the inner function, as a function of the kind `k` of `f`, of the values `o i` of the
+    tests that are no inspect kind tests (opaque to the model), and of `opt`: the interpreter runs with -O / -OO / PYTHONOPTIMIZE, which
+    compiles `assert` statements away and folds `__debug__` to False.{opaque_doc(so)} -/
+def syncPre (k : FnKind) (o : Nat → Bool) (opt : Bool) : Pre :=
   {sc}
 
-/-- `safe_async_contextmanager`: the same -/
-def asyncDecoCheck (k : FnKind) : Option Reject :=
+/-- `safe_async_contextmanager`: the same.{opaque_doc(ao)} -/
+def asyncPre (k : FnKind) (o : Nat → Bool) (opt : Bool) : Pre :=
   {ac}
 
 /-- the kind tests of the decoration-time checks look at the object handed to the decorator itself (false: at `inspect.unwrap(f)`, i.e.
